@@ -781,6 +781,9 @@ def compare_costs_only(case, ir, mr):
             return ['chp.costs_only: error class %s (impl) vs %s (model)' % (co['error'], mr['error'])]
         return []
     if 'error' in mr:
+        a_ = scen.dec(copy.deepcopy(case['args']))
+        if a_.get('freq') is not None and a_.get('freq') != case['grid']['freq'] and len(co.get('c', [1])) == 0:
+            return []       # (inactive asset with an own frequency: see `compare`)
         return ['chp.costs_only: model rejects (%s) what the implementation computes' % mr['error']]
     from ..pf import cmp_vec
     d = cmp_vec('chp.costs_only.c', mr['c'], co['c'], 0 if case.get('exact') else 1e-9)
